@@ -89,6 +89,10 @@ _register(updater_registry, 'vmc_collect_quiet', collect_quiet)
 # ----------------------------------------------------------------------
 # update templates
 
+class InjectedFault(Exception):
+    pass
+
+
 class Env:
     def __init__(self, probe, n, timestep, states):
         self.probe, self.n, self.timestep, self.states = (
@@ -130,6 +134,10 @@ def subst(tpl, env):
             return {'_value': (env.probe.pid, env.n), '_updater': 'set'}
         if tpl == '$ts':
             return env.timestep
+        if tpl == '$big':
+            # a large, unique update (exceeds a pipe's socket buffer)
+            return ('x' * int(env.probe.parameters['payload'])
+                    + f'{env.probe.pid}:{env.n}')
         return tpl
     if isinstance(tpl, dict):
         if '$n' in tpl:
@@ -174,7 +182,7 @@ class _ProbeMixin:
     defaults = {
         'pid': None, 'schema': {}, 'ts': 1, 'cond': 'always',
         'update': {}, 'init': None, 'ts_menu': None, 'log_states': True,
-        'log_snapshot': False,
+        'log_snapshot': False, 'raise_at': None, 'payload': 0,
     }
 
     def _probe_init(self):
@@ -246,6 +254,9 @@ class _ProbeMixin:
             log('snap', self.uid, self.pid, n, now(), snapshot())
         log('invoke', self.uid, self.pid, n, now(), timestep,
             copy.deepcopy(states), self.is_step())
+        if self.parameters['raise_at'] is not None and \
+                n == self.parameters['raise_at']:
+            raise InjectedFault(f'injected fault in {self.pid} call {n}')
         upd = subst(self.parameters['update'], Env(self, n, timestep, states))
         log('return', self.uid, self.pid, n, now(), upd)
         return upd
